@@ -18,7 +18,7 @@ import shutil
 import subprocess
 import tempfile
 
-GEN_VERSION = 3
+GEN_VERSION = 4
 
 # ----------------------------------------------------------------------------------------------- payloads
 
@@ -191,6 +191,9 @@ def gen_scenario(rng, size="small", features=None):
             c["aborts"] = [rng.range(1, 30) for _ in range(rng.range(1, 12))]  # sleeps in units of 0.1 ms
             if c["mode"] == "take":
                 c["mode"] = "select"
+        if allow("gc") and not c["aborts"] and rng.chance(1, 3):
+            c["gc"] = True
+            c["fibers"] = rng.range(2, 6)
         covered.update(cs)
         cons.append(c)
     # ev/select takes the locks of all its thread channels in clause order and holds them: two threads selecting on the same
@@ -217,8 +220,14 @@ def gen_scenario(rng, size="small", features=None):
         mode = "give"
         if allow("sgive") and rng.chance(1, 5) and all(caps[ci] > 0 and not stale_possible[ci] for ci, _ in msgs):
             mode = "sgive"
+        gab = {}
+        if mode == "give" and allow("gabandon") and rng.chance(1, 3):
+            # blocked givers that give up (cancel / deadline / a select whose give clause lost): the item is already queued
+            for s in range(n):
+                if rng.chance(1, 3):
+                    gab[str(s)] = rng.choice(["cancel", "deadline", "select"])
         prods.append({"id": i, "msgs": msgs, "mode": mode, "notes": rng.range(0, 3), "gc": rng.chance(1, 2),
-                      "ret": rng.range(0, 1000)})
+                      "ret": rng.range(0, 1000), "gab": gab})
     return {"v": GEN_VERSION, "caps": caps, "cons": cons, "prods": prods,
             "stale_possible": [stale_possible[ci] for ci in range(nch)]}
 
@@ -231,6 +240,14 @@ PRELUDE = r'''
 (defn msg? [m] (and (tuple? m) (= 3 (length m)) (number? (m 0)) (number? (m 1))))
 (defn shape [x] (def s (string/format "%q" x)) (string (type x) " " (if (> (length s) 300) (string/slice s 0 300) s)))
 (defn give-shape [r] (cond (= (type r) :core/channel) "core/channel" (and (tuple? r) (= (get r 0) :give)) "give" (string "MALFORMED " (shape r))))
+(defn churn []
+  (gccollect)
+  (def keep @[])
+  (for j 0 30 (array/push keep [-1 -2 (string "garbage-" j "-" j) @{:round -1 :tag "none"} @[-3 -3 -3] (buffer "junkjunkjunk")]))
+  # stay out of the event loop for a moment so that several hand-offs are picked up in one turn
+  (def t0 (os/clock :monotonic))
+  (while (< (- (os/clock :monotonic) t0) 0.0002))
+  (length keep))
 (defn canon [x]
   (case (type x)
     :number (string/format "%.17g" (if (= x 0) 0 x))
@@ -276,6 +293,7 @@ def render(scn, stall=8):
             b.append("(ev/spawn (each t [%s] (ev/sleep (* t 0.0001)) (ev/give abortc :abort)))" % " ".join(str(t) for t in c["aborts"]))
             mych += " abortc"
         b.append("(ev/give ctl [:ready %d])" % j)
+        b.append("(defn consume []")
         b.append("(var alive true)")
         b.append("(while alive")
         if c["mode"] == "take":
@@ -295,7 +313,16 @@ def render(scn, stall=8):
         b.append('    (= kind :malformed) (do (wr f "malformed " (shape m)) (ev/give ctl [:got]))')
         b.append('    (nil? ci) (wr f "abort")')
         b.append('    (not (msg? m)) (do (wr f "malformed " (shape m)) (ev/give ctl [:got]))')
-        b.append('    (do (wr f "got " (m 0) " " (m 1) " " ci " " (canon (m 2))) (ev/give ctl [:got]))))')
+        # gc-pressure receivers: collect and allocate same-shaped junk between the hand-off and the first look at the message
+        pre = "(churn) " if c.get("gc") else ""
+        b.append('    (do %s(wr f "got " (m 0) " " (m 1) " " ci " " (canon (m 2))) (ev/give ctl [:got])))))' % pre)
+        k = c.get("fibers", 1)
+        if k > 1:
+            b.append("(def joinc (ev/chan %d))" % k)
+            b.append("(repeat %d (ev/spawn (consume) (ev/give joinc true)))" % k)
+            b.append("(repeat %d (ev/take joinc))" % k)
+        else:
+            b.append("(consume)")
         b.append('(wr f "end")')
         b.append("(file/close f)")
         b.append("(ev/give ctl [:cons-end %d])" % j)
@@ -317,7 +344,14 @@ def render(scn, stall=8):
         b = ['(def f (logf "prod-%d.txt"))' % i]
         for s, (ci, pay) in enumerate(p["msgs"]):
             msg = "[%d %d %s]" % (i, s, janet_expr(pay))
-            if p["mode"] == "give":
+            ab = p.get("gab", {}).get(str(s))
+            if ab == "cancel":
+                b.append('(let [gf (ev/spawn (try (ev/give (chans %d) %s) ([e] nil)))] (ev/sleep 0.001) (if (fiber/can-resume? gf) (ev/cancel gf "abandon")) (ev/sleep 0) (wr f "sent %d %d core/channel"))' % (ci, msg, s, ci))
+            elif ab == "deadline":
+                b.append('(try (ev/with-deadline 0.002 (ev/give (chans %d) %s)) ([e] nil)) (wr f "sent %d %d core/channel")' % (ci, msg, s, ci))
+            elif ab == "select":
+                b.append('(let [lc (ev/chan 1)] (ev/spawn (ev/sleep 0.001) (ev/give lc :x)) (ev/select [(chans %d) %s] lc) (wr f "sent %d %d core/channel"))' % (ci, msg, s, ci))
+            elif p["mode"] == "give":
                 b.append('(wr f "sent %d %d " (give-shape (ev/give (chans %d) %s)))' % (s, ci, ci, msg))
             else:
                 b.append('(wr f "sent %d %d " (give-shape (ev/select [(chans %d) %s])))' % (s, ci, ci, msg))
@@ -328,6 +362,9 @@ def render(scn, stall=8):
         b.append("(ev/give ctl [:done %d])" % i)
         b.append('(wr f "end")')
         b.append("(file/close f)")
+        if p.get("gab"):
+            # a parked-writer entry that was given up must not outlive its thread: stay until the channels are closed
+            b.append("(ev/take fin)")
         b.append("%d" % p["ret"])
         body = "\n    ".join(b)
         o.append("(ev/spawn\n  (ev/thread (fn [&]\n    %s) %d :t sup)\n"
@@ -337,7 +374,8 @@ def render(scn, stall=8):
     np = len(scn["prods"])
     o.append("(var got 0) (var done 0) (var returned 0)")
     o.append("(def done-set @{})")
-    o.append("(while (or (< got %d) (< done %d) (< returned %d))" % (total, np, np))
+    late = sum(1 for p in scn["prods"] if p.get("gab"))
+    o.append("(while (or (< got %d) (< done %d) (< returned %d))" % (total, np, np - late))
     o.append('  (def m (ctl-take (string "got=" got " done=" done " returned=" returned)))')
     o.append("  (case (m 0)")
     o.append("    :got (++ got)")
@@ -347,7 +385,9 @@ def render(scn, stall=8):
     o.append("(each c chans (ev/chan-close c))")
     o.append('(repeat %d (def m (ctl-take "cons-end")) (if (= (m 0) :got) (wr mainlog "EXTRA-GOT") (assert (= (m 0) :cons-end))))' % len(scn["cons"]))
     o.append("(ev/chan-close fin)")
-    nsup = sum(p["notes"] + 1 for p in scn["prods"])
+    o.append('(repeat %d (def m (ctl-take "late-returned")) (if (= (m 0) :returned) (wr mainlog "order " (m 1) " " (if (done-set (m 1)) "done-before-returned" "RETURNED-BEFORE-DONE")) (wr mainlog "EXTRA-GOT")))' % late)
+    # helper fibers of abandoned gives (cancel / select) inherit the supervisor channel: one [:ok ..] event each
+    nsup = sum(p["notes"] + 1 + sum(1 for k in p.get("gab", {}).values() if k in ("cancel", "select")) for p in scn["prods"])
     o.append("(repeat %d" % nsup)
     o.append('  (def m (try (ev/with-deadline %d (ev/take sup)) ([e] (wr mainlog "stall sup") (os/exit 3))))' % stall)
     o.append('  (wr mainlog "sup " (canon m)))')
@@ -379,7 +419,9 @@ def run_scenario(janet, scn, env=None, timeout=120, keep=False, preload=None, wo
             if fn.endswith(".txt"):
                 with open(os.path.join(d, fn), errors="replace") as f:
                     logs[fn[:-4]] = f.read().splitlines()
-        return {"rc": rc, "stderr": err[-6000:], "stdout": out[-2000:], "logs": logs}
+        if len(err) > 9000:  # keep the head (sanitizer report header + first stack) and the tail
+            err = err[:5000] + "\n...\n" + err[-4000:]
+        return {"rc": rc, "stderr": err, "stdout": out[-2000:], "logs": logs}
     finally:
         if not keep:
             shutil.rmtree(d, ignore_errors=True)
@@ -422,7 +464,8 @@ def oracle(scn, res):
                 bad.append(("wrong-channel", "message %r sent on channel %d arrived on channel %d" % (key, sent[key][0], ci)))
             if sent[key][1] != cn:
                 bad.append(("not-equal", "message %r arrived structurally different: sent %s got %s" % (key, sent[key][1][:200], cn[:200])))
-            if last.get((pid, ci), -1) > seq:
+            # several receiver fibers in one thread log after their own (yielding) canonicalisation: no order claim there
+            if last.get((pid, ci), -1) > seq and c.get("fibers", 1) == 1:
                 per_cons_order.append((c["id"], pid, ci, last[(pid, ci)], seq))
             last[(pid, ci)] = max(last.get((pid, ci), -1), seq)
     for c in scn["cons"]:
@@ -485,10 +528,16 @@ def oracle(scn, res):
             exp[p["id"]] = [canon(("tuple", [("kw", b"note"), ("num", float(p["id"])), ("num", float(k))])) for k in range(p["notes"])] + \
                            [canon(("tuple", [("kw", b"ok"), ("num", float(p["ret"])), ("num", float(p["id"]))]))]
         seen = {p["id"]: [] for p in scn["prods"]}
+        helpers_left = {p["id"]: sum(1 for k in p.get("gab", {}).values() if k in ("cancel", "select")) for p in scn["prods"]}
         for line in main:
             if line.startswith("sup "):
                 cn = line[4:]
                 hit = [pid for pid, es in exp.items() if cn in es]
+                helper = [p["id"] for p in scn["prods"] if cn.startswith("(k:6f6b ") and cn.endswith(" %d)" % p["id"])
+                          and helpers_left.get(p["id"], 0) > 0]
+                if not hit and helper:
+                    helpers_left[helper[0]] -= 1
+                    continue
                 if not hit:
                     bad.append(("supervisor-phantom", "unexpected supervisor message " + cn[:200]))
                 else:
@@ -563,4 +612,6 @@ def describe(scn):
             "consumer_modes": sorted(set(c["mode"] for c in scn["cons"])),
             "abandon": sorted(set(k for c in scn["cons"] for _, k in c["abandon"])),
             "aborts": sum(len(c["aborts"]) for c in scn["cons"]),
+            "gc_consumers": sum(1 for c in scn["cons"] if c.get("gc")),
+            "giver_abandon": sorted(set(k for p in scn["prods"] for k in p.get("gab", {}).values())),
             "shapes": sorted(set(shape_of(pay) for p in scn["prods"] for _, pay in p["msgs"]))}
